@@ -534,3 +534,44 @@ def run_leg(ctx, rep, binpath, fixed):
                     bad[:1] or None)
         except Exception as ex:      # noqa: BLE001
             rep.tie("correspondence:MicroReal.v-vs-Sim", False, str(ex)[:400])
+
+
+def replay_scenario(ctx, rep, binpath, fixed, text, run_no):
+    """re-run one recorded scenario (all its interleavings) and judge the recorded run number (or every run)"""
+    rc, out = run_bin(binpath, input=text, timeout=600)
+    f = text.split()
+    lines = [l for l in text.splitlines() if l.strip()]
+    sc = {"id": f[1], "layers": int(f[2]), "threads": int(f[3]), "maxruns": int(f[4]), "seed": int(f[5]), "setup": [], "own": [], "pre": [],
+          "prog": [[] for _ in range(int(f[3]))]}
+
+    def conv(ws):
+        return tuple(int(x) if x.lstrip("-").isdigit() else x for x in ws)
+    for l in lines[1:]:
+        w = l.split()
+        if w[0] in ("new", "clone"):
+            sc["setup"].append(conv(w))
+        elif w[0] == "own":
+            sc["own"].append((int(w[1]), int(w[2])))
+        elif w[0] == "pre":
+            sc["pre"].append((int(w[1]), conv(w[2:])))
+        elif w[0] == "op":
+            sc["prog"][int(w[1])].append(conv(w[2:]))
+    seen = False
+    for line in out.splitlines():
+        if not line.startswith("{"):
+            continue
+        d = json.loads(line)
+        if d.get("summary"):
+            continue
+        seen = seen or d["yields_seen"]
+        if run_no is not None and d["run"] != run_no:
+            continue
+        rep.evaluations += 1
+        sim, dis = replay(sc, d, fixed)
+        if dis:
+            rep.tie("correspondence:micro-schedules(Sim)", False, dis["what"], {"scenario": text, "run": d["run"], **dis})
+        for what, finding in oracle(sc, d, None if dis else sim):
+            rep.violation("sched: " + "".join(ch for ch in what if not ch.isdigit()),
+                          {"what": what, "scenario": text, "run": d["run"], "schedule (n_enabled, thread, from_yield, to_yield)": d["steps"]}, finding=finding)
+    if not seen:
+        rep.tie("replay:h_registry_sched", False, "the tree has no H3 registry yield points: the recorded schedule cannot be forced")
